@@ -56,7 +56,7 @@ impl MachineState {
             hb: 0,
             block: 0,
             scc_block: 0,
-            ball: Ball::new(),
+            ball: Ball::with_reserve(),
             ball_stack: vec![],
             lifted_heap: Heap::new(),
             cont_pts: Vec::with_capacity(256),
